@@ -82,6 +82,8 @@ func checkC07(R *Run) {
 	R.rule("sanitiser-control", "control: the same classifier reports TAINTED for Join(root, tainted) and ANCHORED for Join(\"/\", tainted) inside the tree (positive and negative example found in the analysed code on every run)")
 	R.rulePathTaint("path-taint", nil, 70)
 	R.ruleRequesterRoot()
+	R.ruleStorePassthrough()
+	R.ruleAccountPathShape()
 
 	// readpath-shape
 	if fn := R.mustFn("hotline.ReadPath"); fn != nil {
